@@ -62,3 +62,85 @@ pub fn cycles_table() -> i32 {
     eprintln!("{} encodings with cycle differences (block = op + HALT; HALT's own cycle included on both sides)", lines.len());
     0
 }
+
+/// per-step trace of the three C03 replicas for a case file (triage aid)
+pub fn trace_c03(path: &str) -> i32 {
+    use crate::machine::RUN;
+    crate::capture::redirect_stdout();
+    crate::driver::install_panic_hook();
+    let text = std::fs::read_to_string(path).unwrap();
+    let v: serde_json::Value = serde_json::from_str(&text).unwrap();
+    let case = Case::from_json(v.get("case").unwrap_or(&v)).unwrap();
+    let (_img, mut reps) = replicas(&case, &[true, true, false]).unwrap();
+    for m in reps.iter_mut() {
+        let w = m.wram();
+        for i in (0x1f00..0x2000).step_by(2) {
+            w[i] = 0x50;
+            w[i + 1] = 0x01;
+        }
+        for i in 0..0x200 {
+            w[i] = 0;
+        }
+        m.set_regs(Regs { af: 0x0100, bc: 0x8013, de: 0x80d8, hl: 0xc100, sp: 0xdff0, ip: 0x150, cycles: 0 });
+        m.set_ime(case.get("ime") as u8);
+    }
+    let mut n = 0;
+    for op in case.ops.iter() {
+        match op.k {
+            "w" | "b" => {
+                for m in reps.iter_mut() {
+                    m.write(op.arg(0) as u16, op.arg(1) as u8);
+                }
+            }
+            "t" | "g" => {
+                let pc = if op.k == "t" { 0x200 + op.arg(0) as u32 * 0x20 } else { (op.arg(0) & 0x7fff) as u32 };
+                for m in reps.iter_mut() {
+                    let mut r = m.regs();
+                    r.ip = pc;
+                    m.set_regs(r);
+                    m.set_run_state(RUN);
+                }
+            }
+            "f" => reps[0].flush_cache(),
+            "q" => {
+                for m in reps.iter_mut() {
+                    let f = m.iflag();
+                    m.set_iflag(f | (op.arg(0) & 0x1f) as u8);
+                }
+            }
+            "j" => {
+                for m in reps.iter_mut() {
+                    if op.arg(1) != 0 {
+                        m.press(op.arg(0) as u8)
+                    } else {
+                        m.release(op.arg(0) as u8)
+                    }
+                }
+            }
+            "s" => {
+                for _ in 0..op.arg(0) {
+                    n += 1;
+                    reps[1].flush_cache();
+                    let mut line = format!("step {:3}", n);
+                    for m in reps.iter_mut() {
+                        let pre = m.regs();
+                        let bank = m.rom_bank();
+                        let rs = m.run_state();
+                        let r = std::panic::catch_unwind(std::panic::AssertUnwindSafe(|| {
+                            if m.run_state() == RUN {
+                                m.run_code_block()
+                            } else {
+                                m.update()
+                            }
+                        }));
+                        let post = m.regs();
+                        line.push_str(&format!(" | {} pc {:04x}(b{} rs{}) -> {:04x} af {:04x} sp {:04x} cyc {} ime {} if {:02x}{}", m.kind(), pre.ip, bank, rs, post.ip, post.af, post.sp, m.last_block_cycles(), m.ime(), m.iflag(), if r.is_err() { " PANIC" } else { "" }));
+                    }
+                    eprintln!("{}", line);
+                }
+            }
+            _ => {}
+        }
+    }
+    0
+}
